@@ -14,7 +14,7 @@ def cmdSpecCanon (comp value proto : String) (hintArgs : List String) : String :
     if v.isEmpty then "ok -" else
     match protocolUrl idna v with
     | none => "fail"
-    | some u => match findMarker u.href with
+    | some u => match findMarker idna u.href with
       | some d => s!"need-idna {hexs d}"
       | none => "ok " ++ hexs u.scheme
   | "username" => "ok " ++ hexs (canonUsername v)
@@ -22,7 +22,7 @@ def cmdSpecCanon (comp value proto : String) (hintArgs : List String) : String :
   | "hostname" =>
     match canonHostname idna v with
     | none => "fail"
-    | some h => match findMarker h with
+    | some h => match findMarker idna h with
       | some d => s!"need-idna {hexs d}"
       | none => "ok " ++ hexs h
   | "ipv6hostname" => okOpt (canonIpv6Hostname v)
